@@ -757,6 +757,9 @@ _FUNCS = {
     np.nanmin: _reducer("nanmin", _nan_wrap(_min1)),
     np.nanmedian: _reducer("nanmedian", _nan_wrap(_median1)),
     np.nanstd: _reducer("nanstd", _nan_wrap(_std1)),
+    np.ptp: _reducer("ptp", lambda xs: _max1(xs) - _min1(xs)),
+    np.average: (lambda a, axis=None, weights=None, **kw: _FUNCS[np.mean](a, axis=axis) if weights is None
+                 else (_ for _ in ()).throw(Unsupported("np.average with weights"))),
     np.argsort: _h_argsort,
     np.sort: _h_sort,
     np.cumsum: _h_cumsum,
